@@ -56,6 +56,25 @@ def sources(tier, wd, out, per_focus_quick=250, per_focus_thorough=1200, foci=FO
                      '<g opacity="0.5"><rect width="4" height="4"/>%s</g><rect x="6" width="3" height="3"/>'):
             res.append(("family/unsupported-in-group", '<svg xmlns="http://www.w3.org/2000/svg" viewBox="0 0 16 16">'
                         '<g opacity="0.5">%s</g><rect x="9" y="9" width="5" height="5"/></svg>' % (body % u), None))
+    # gradientTransform translations around the 6-digit rounding threshold (what is folded into the
+    # coordinates and what stays in the matrix must not change from one pass to the next)
+    for tx in ("0.0000016", "0.0000004", "0.00000051", "1.4e-6", "0.0000049", "0.000001"):
+        for lin in ("3.5 0 0 3.5", "1 0 0 1", "0 2 -2 0"):
+            res.append(("family/tiny-gradient-translation", '<svg xmlns="http://www.w3.org/2000/svg" viewBox="0 0 16 16"><defs>'
+                        '<linearGradient id="g" gradientUnits="userSpaceOnUse" x1="1" y1="1" x2="3" y2="1" '
+                        'gradientTransform="matrix(%s %s 0)"><stop offset="0" stop-color="red"/><stop offset="1" '
+                        'stop-color="blue"/></linearGradient></defs><rect x="1" y="1" width="12" height="9" fill="url(#g)"/>'
+                        '</svg>' % (lin, tx), None))
+    # foreign namespaces declared on an inner element (the root declares only svg / xlink)
+    stopd = ('<defs><linearGradient id="g" x2="0.5"><stop offset="0" stop-color="red" ed:swatch="Brand" '
+             'xmlns:ed="urn:example:ed"/><stop offset="1" stop-color="blue"/></linearGradient></defs>')
+    for body in (stopd + '<rect width="9" height="9" fill="url(#g)"/>',
+                 stopd + '<rect width="9" height="9" fill="url(#g)" transform="translate(2,1)"/><rect width="3" height="3"/>',
+                 '<app:g xmlns:app="urn:example:app" opacity="0.5"><rect width="4" height="4"/><rect x="2" y="2" width="4" height="4"/></app:g>',
+                 '<g opacity="0.5"><rect width="4" height="4" app:layer="1" xmlns:app="urn:example:app"/><rect x="2" y="2" width="4" height="4"/></g>',
+                 '<rect width="4" height="4"/><text x="1" y="9" app:k="v" xmlns:app="urn:example:app">t</text>',
+                 '<rect width="4" height="4"/><app:path xmlns:app="urn:example:app" d="M0,0 L5,5 L0,5 Z"/>'):
+        res.append(("family/inline-foreign-namespace", '<svg xmlns="http://www.w3.org/2000/svg" viewBox="0 0 16 16">%s</svg>' % body, None))
     # ids are XML names, not ASCII words
     for gid in ("Dégradé_sans_nom_2", "Безымянный_градиент", "渐变-3", "g.1", "_x-y"):
         for tf in ("", ' transform="translate(2,1)"'):
